@@ -1,0 +1,33 @@
+//go:build verif
+
+package harfbuzz
+
+// Contracts for contract-based deductive verification (comment-only; see /verif/DESIGN.md).
+//
+// ---------------------------------------------------------------------------------------------
+// Property C18 (clause "glyph flags are uniform within a cluster"). A cluster is a maximal run of equal Cluster values.
+//@ func clusterIterator.next C18
+//@   mode int
+//@   requires 0 <= c.start && c.buffer != nil
+//@   ensures [start] start == old(c.start)
+//@   ensures [exhausted] implies(old(c.start) >= len(c.buffer.Info), end == 0 && c.start == old(c.start))
+//@   ensures [cluster] implies(old(c.start) < len(c.buffer.Info), start < end && end <= len(c.buffer.Info) && c.start == end &&
+//@     | forall(k, start, end, c.buffer.Info[k].Cluster == c.buffer.Info[start].Cluster) &&
+//@     | (end == len(c.buffer.Info) || c.buffer.Info[end].Cluster != c.buffer.Info[start].Cluster))
+//@   modifies c.start
+//@   loop 1 invariant [range] start+1 <= end && end <= count && count == len(info) && sameslice(info, c.buffer.Info) && cluster == info[start].Cluster && start == c.start
+//@   loop 1 invariant [same] forall(k, start, end, info[k].Cluster == cluster)
+//
+//@ func propagateFlags C18
+//@   mode int
+//@   ensures [uniform] implies(old(buffer.scratchFlags)&bsfHasGlyphFlags != 0, forall(i, 0, len(buffer.Info)-1, implies(buffer.Info[i].Cluster == buffer.Info[i+1].Cluster, buffer.Info[i].Mask == buffer.Info[i+1].Mask)))
+//@   ensures [clusters-kept] forall(i, 0, len(buffer.Info), buffer.Info[i].Cluster == old(buffer.Info[i].Cluster))
+//@   modifies buffer.Info[:].Mask
+//@   loop 1 invariant [iter] fresh(iter) && iter.buffer == buffer && sameslice(info, buffer.Info) && count == len(info) && 0 <= start && start <= count
+//@   loop 1 invariant [current] implies(start < count, start < end && end <= count && iter.start == end && forall(k, start, end, info[k].Cluster == info[start].Cluster) && (end == count || info[end].Cluster != info[start].Cluster))
+//@   loop 1 invariant [boundary] implies(0 < start && start < count, info[start-1].Cluster != info[start].Cluster)
+//@   loop 1 invariant [done] forall(i, 0, start-1, implies(info[i].Cluster == info[i+1].Cluster, info[i].Mask == info[i+1].Mask))
+//@   loop 2 invariant [i-range] start <= i && i <= end
+//@   loop 3 invariant [i-range] start <= i && i <= end
+//@   loop 3 invariant [assigned] forall(k, start, i, info[k].Mask == mask)
+//@   loop 3 invariant [done] forall(j, 0, start-1, implies(info[j].Cluster == info[j+1].Cluster, info[j].Mask == info[j+1].Mask))
